@@ -435,8 +435,11 @@ def check_buffer_agreement(chk, facts):
         elif "has_variations" in s and "discr" not in s:
             name = "V"
         else:
+            # the "hinted" flag: a plain `bool` parameter tested directly (whatever it is called)
             l = body.root_local(t.d[1])
-            if l is not None and body.local_name(l) in ("hinting", "hinted"):
+            if l is not None and 0 < l <= body.argc and body.local_ty(l) == "bool" and e[0] in ("param", "local"):
+                name = "H"
+            elif l is not None and body.local_name(l) in ("hinting", "hinted"):
                 name = "H"
         if name is None:
             return None
@@ -602,7 +605,16 @@ def check_scratch_init(chk, facts):
     chk.rule("C12-f", "T-ORDER/T-GUARD: scratch delta buffers (caller memory, never zeroed by the library's allocator path) are "
                       "zero-filled before accumulation and read only when they were written for this glyph")
     cd = chk.anchor("C12-f", "deltas::compute_deltas_for_glyph", facts.body("skrifa::outline::glyf::deltas::compute_deltas_for_glyph"))
+    # the scratch delta buffer: the `&mut [Point<_>]` parameter that is not the output (by name if it is still called
+    # `deltas`, else the first mutable point slice that some `fill`/`iter_mut` call receives)
     dparam = [i for i in range(1, cd.argc + 1) if cd.local_name(i) == "deltas"]
+    if not dparam:
+        muts = [i for i in range(1, cd.argc + 1) if cd.local_ty(i).replace(" ", "").startswith("&mut[") and "Point<" in cd.local_ty(i)]
+        for i in muts:
+            if any((t.callee.endswith("::fill") or t.callee.endswith("::iter_mut")) and any(op_place(a) is not None and cd.root_local(a) == i for a in t.args)
+                   for _, t in cd.calls()):
+                dparam = [i]
+                break
     chk.anchor("C12-f", "`deltas` parameter of compute_deltas_for_glyph", dparam)
     dp = dparam[0]
     uses = [(bb, t) for bb, t in cd.calls() if any(op_place(a) is not None and cd.root_local(a) == dp for a in t.args)]
